@@ -81,7 +81,7 @@ Qed.
 Example premises_satisfiable :
   tx_wf sha256 w_tx /\ tx_alh sha256 (t_hdr w_tx) = Ok w_alh /\ bytes_ok w_rec = true /\
   read_tx sha256 true 6 12 w_rec = Ok (w_tx, w_alh, []) /\
-  read_value sha256 64 VSingle [] [w_vlog] (len w_val) w_voff (sha256 w_val) = Ok w_val.
+  fst (read_value sha256 64 VSingle [] [w_vlog] None (len w_val) w_voff (sha256 w_val)) = Ok w_val.
 Proof. split; [exact w_tx_wf|]. repeat split; vm_compute; reflexivity. Qed.
 
 (* ---- (1) vLen / vOff are under no hash: ONE flipped bit of the stored vLen (2 -> 0), trailing
@@ -113,7 +113,7 @@ Theorem corrupt_entry_value_refuted :
     length rec' = length w_rec /\
     read_tx sha256 true 6 12 rec' = Ok (t', a, []) /\ t_entries t' = [e'] /\
     e_hval e' = sha256 w_val /\
-    read_value sha256 64 VSingle [] [w_vlog] (e_vlen e') (e_voff e') (e_hval e') = Ok [] /\
+    fst (read_value sha256 64 VSingle [] [w_vlog] None (e_vlen e') (e_voff e') (e_hval e')) = Ok [] /\
     w_val <> [].
 Proof.
   exists w_rec_vlen0, w_tx_vlen0, w_alh, (w_entry [107; 49] 0 w_voff w_hval).
@@ -147,16 +147,16 @@ Qed.
 (* ---- (3) [fixed by commit c6a3ff8] a value reference that names a value log the store does not
    have (vLogID 1 -> 5) used to panic in the multi-vlog configuration; it is an error now ---- *)
 Example absent_vlog_is_error :
-  forall H, read_value H 64 VMulti [] [w_vlog; []] 2 (5 * 2 ^ 56 + 3) (H w_val) = Err ECorruptedData.
+  forall H, fst (read_value H 64 VMulti [] [w_vlog; []] (Some []) 2 (5 * 2 ^ 56 + 3) (H w_val)) = Err ECorruptedData.
 Proof. intros H. reflexivity. Qed.
 
 (* ---- (4) ExportTx: a value whose read ends in EOF (vOff moved beyond the end of the log) is
    taken for "truncated": the export succeeds, flagged truncated, with the digest instead of the
    value, although the committed value is still in the log ---- *)
 Theorem export_values_refuted :
-  export_values sha256 true 64 VSingle [] [w_vlog] [w_entry [107; 49] 2 (w_voff + 100) w_hval] 0 false
+  fst (export_values sha256 true 64 VSingle [] [w_vlog] None [w_entry [107; 49] 2 (w_voff + 100) w_hval] 0 false)
     = Ok (true, [w_hval]) /\
-  export_values sha256 true 64 VSingle [] [w_vlog] [w_entry [107; 49] 2 w_voff w_hval] 0 false
+  fst (export_values sha256 true 64 VSingle [] [w_vlog] None [w_entry [107; 49] 2 w_voff w_hval] 0 false)
     = Ok (false, [w_val]).
 Proof. split; vm_compute; reflexivity. Qed.
 
@@ -168,25 +168,35 @@ Definition w_tx_huge : tx := Eval vm_compute in rtx (read_tx sha256 true 6 12 w_
 Example huge_vlen_refused :
   read_tx sha256 true 6 12 w_rec_huge = Ok (w_tx_huge, w_alh, []) /\
   map e_vlen (t_entries w_tx_huge) = [2 ^ 30 + 2] /\
-  read_value sha256 64 VSingle [] [w_vlog] (2 ^ 30 + 2) w_voff w_hval = Err ECorruptedData /\
+  fst (read_value sha256 64 VSingle [] [w_vlog] None (2 ^ 30 + 2) w_voff w_hval) = Err ECorruptedData /\
   read_value_alloc 64 (2 ^ 30 + 2) = 0.
 Proof. repeat split; vm_compute; reflexivity. Qed.
 
 (* ---- the same three mechanisms for EVERY hash function (no evaluation of a hash involved) ---- *)
 (* ReadValue answers an entry whose vLen is 0 with the empty value before anything is checked *)
 Theorem vlen0_serves_empty :
-  forall (H : bytes -> bytes) mvl mode txlog vlogs off hval,
-    read_value H mvl mode txlog vlogs 0 off hval = Ok [].
+  forall (H : bytes -> bytes) mvl mode txlog vlogs c off hval,
+    fst (read_value H mvl mode txlog vlogs c 0 off hval) = Ok [].
 Proof. reflexivity. Qed.
 
 Theorem corrupt_entry_value_refuted_any_hash :
-  forall (H : bytes -> bytes) (v : bytes) mvl mode txlog vlogs off,
-    v <> [] -> exists v', read_value H mvl mode txlog vlogs 0 off (H v) = Ok v' /\ v' <> v.
-Proof. intros H v mvl mode txlog vlogs off NE. exists []. split; [reflexivity | congruence]. Qed.
+  forall (H : bytes -> bytes) (v : bytes) mvl mode txlog vlogs c off,
+    v <> [] -> exists v', fst (read_value H mvl mode txlog vlogs c 0 off (H v)) = Ok v' /\ v' <> v.
+Proof. intros H v mvl mode txlog vlogs c off NE. exists []. split; [reflexivity | congruence]. Qed.
 
 (* ExportTx takes an unreadable value (EOF) for a truncated one, whatever the digest is *)
 Theorem export_eof_as_truncated :
   forall (H : bytes -> bytes) (hval : bytes),
-    export_values H true 64 VSingle [] [w_vlog] [w_entry [107; 49] 2 (w_voff + 100) hval] 0 false
+    fst (export_values H true 64 VSingle [] [w_vlog] None [w_entry [107; 49] 2 (w_voff + 100) hval] 0 false)
       = Ok (true, [hval]).
 Proof. intros H hval. reflexivity. Qed.
+
+(* ---- the value cache: an altered value log (7 -> 8) with the cache enabled. The first read misses,
+   stores the altered bytes in the cache and fails the digest test; the second read hits the cache
+   and fails the same test again: a cached value is never served unvalidated ---- *)
+Definition w_vlog_bad : bytes := [1; 2; 3; 8; 9; 4].
+Example cached_value_revalidated :
+  let r1 := read_value sha256 64 VSingle [] [w_vlog_bad] (Some []) 2 w_voff w_hval in
+  let r2 := read_value sha256 64 VSingle [] [w_vlog_bad] (snd r1) 2 w_voff w_hval in
+  fst r1 = Err ECorruptedData /\ snd r1 = Some [(w_voff, [8; 9])] /\ fst r2 = Err ECorruptedData.
+Proof. vm_compute. repeat split; reflexivity. Qed.
